@@ -38,7 +38,10 @@ func (c *Coll) Snapshot(t, name string, dst io.Writer) error {
 		dst = &buf
 	}
 	err := c.C.Snapshot(dst)
-	e := Ev{"e": "snap", "t": t, "c": c.Name, "at": "ret", "err": err != nil, "file": name}
+	e := Ev{"e": "snap", "t": t, "c": c.Name, "at": "ret", "err": err != nil, "file": name, "dstfailed": false}
+	if fw, ok := dst.(*FaultyWriter); ok {
+		e["dstfailed"] = fw.failed // the destination returned an error from at least one Write call
+	}
 	if err != nil {
 		e["msg"] = err.Error()
 	}
